@@ -520,6 +520,8 @@ func (p *PipelinedMemDB) Staging() int {
 
 // Cleanup implements MemBuffer interface.
 func (p *PipelinedMemDB) Cleanup(h int) {
+	// BatchGet also caches what it found in the mutable buffer, which this may discard.
+	p.batchGetCache = nil
 	p.memDB.Cleanup(h)
 }
 
